@@ -225,6 +225,18 @@ example : (emitAll [] [[0x61], [0x61], [0x61, 0x0a, 0x62], [0x20]]).1 =
     [[0x28, 0x31, 0x29, 0x20, 0x61], [0x28, 0x31, 0x29], [0x28, 0x32, 0x29, 0x20, 0x61, 0x20, 0x62], []] := by
   decide +kernel
 
+/-- **Names are single lines that cannot be mistaken for a reference**: whatever bytes a name
+consists of — in particular white space only, with or without line breaks — what `callgrindLine`
+(line breaks to blanks first, leading blanks trimmed second: the order matters) hands to
+`callgrindName` contains no newline and is empty (written as the empty name) or starts with a
+non-blank byte. -/
+theorem callgrind_name_single_line (name : Callgrind.Bytes) :
+    Callgrind.NL ∉ sanitize name ∧ (sanitize name = [] ∨ ∃ b t, sanitize name = b :: t ∧ isBlank b = false) :=
+  sanitize_single_line name
+
+-- a blank-only name with a line break collapses to the empty name; an inner line break becomes a blank
+example : sanitize [0x20, 0x0a, 0x09] = [] ∧ sanitize [0x0a, 0x61, 0x0a, 0x62] = [0x61, 0x20, 0x62] := by decide
+
 /-- **Subposition compression**: for all 64-bit addresses, the token `callgrindAddress` emits for
 `cur` after `prev` (`*`, `+n`, `-n` or absolute hex — whichever it picks) decodes, against the
 corresponding subposition `prev` of the last cost line, to `cur`; without a previous line the
